@@ -104,16 +104,36 @@ func Open(dir string, opts ...walOpt) (*WAL, error) {
 		return nil, err
 	}
 
+	newState := state{
+		segments: &immutable.SortedMap[uint64, segmentState]{},
+	}
+
+	// If we fail from here on, don't leak the metaDB handle (and the file lock
+	// it holds) or any segment files we already opened: a later Open of the same
+	// dir in this process would block forever otherwise.
+	opened := false
+	defer func() {
+		if opened {
+			return
+		}
+		toClose := make([]io.Closer, 0, newState.segments.Len())
+		it := newState.segments.Iterator()
+		for !it.Done() {
+			_, seg, _ := it.Next()
+			if seg.r != nil {
+				toClose = append(toClose, seg.r)
+			}
+		}
+		w.closeSegments(toClose)
+		w.metaDB.Close()
+	}()
+
 	// Load or create metaDB
 	persisted, err := w.metaDB.Load(w.dir)
 	if err != nil {
 		return nil, err
 	}
-
-	newState := state{
-		segments:      &immutable.SortedMap[uint64, segmentState]{},
-		nextSegmentID: persisted.NextSegmentID,
-	}
+	newState.nextSegmentID = persisted.NextSegmentID
 
 	// Get the set of all persisted segments so we can prune it down to just the
 	// unused ones as we go.
@@ -233,6 +253,7 @@ func Open(dir string, opts ...walOpt) (*WAL, error) {
 	// Start the rotation routine
 	go w.runRotate()
 
+	opened = true
 	return w, nil
 }
 
